@@ -9,24 +9,27 @@ counter of substream 0 moves from 1 to 2 exactly when the SYN/ACK is accepted an
 namespace Nx.L1
 open Nx Nx.Prudp Nx.Chan Nx.Crypto
 
+variable {ks : List Bytes} {on : Bool}
+
 /-- the fields of the receiver role and the ciphers, as `Conn.new` (+ `login`) leaves them, on a live link -/
-structure HsFresh (c : Conn) (n : Nat) : Prop where
+structure HsFresh (c : Conn) (n : Nat) (ks : List Bytes) (on : Bool) : Prop where
   win : c.windows = List.replicate n { next := 1, packets := [] }
   q : c.queues = List.replicate n []
   fb : c.fragBufs = List.replicate n []
   eof : c.eof = false
   link : c.linkUp = true
-  keys : ∃ ks : List Bytes, ks.length = n ∧ c.relCiphers = ks.map (fun k => { key := k })
+  keys : ks.length = n ∧ c.relCiphers = ks.map (fun k => { key := k })
+  con : c.cipherOn = on
   only : ∀ p ∈ resendsOf c, p.type = TYPE_SYN ∨ p.type = TYPE_CONNECT
 
-theorem arm_hsFresh (c : Conn) (n : Nat) (now : Time) (p : Packet) (k : Nat) (h : HsFresh c n)
-    (hp : p.type = TYPE_SYN ∨ p.type = TYPE_CONNECT) : HsFresh (c.arm now p k) n := by
+theorem arm_hsFresh (c : Conn) (n : Nat) (now : Time) (p : Packet) (k : Nat) (h : HsFresh c n ks on)
+    (hp : p.type = TYPE_SYN ∨ p.type = TYPE_CONNECT) : HsFresh (c.arm now p k) n ks on := by
   unfold Conn.arm
   cases hs : c.sched with
   | none => exact h
   | some s =>
     simp only []
-    refine ⟨h.win, h.q, h.fb, h.eof, h.link, h.keys, ?_⟩
+    refine ⟨h.win, h.q, h.fb, h.eof, h.link, h.keys, h.con, ?_⟩
     intro q hq
     have hold := h.only
     simp only [resendsOf, hs] at hold
@@ -36,9 +39,9 @@ theorem arm_hsFresh (c : Conn) (n : Nat) (now : Time) (p : Packet) (k : Nat) (h 
     · exact hold q hq
     · rw [hq]; exact hp
 
-theorem transmit_hs (env : Env) (now : Time) (c : Conn) (n : Nat) (q : Packet) (h : HsFresh c n)
+theorem transmit_hs (env : Env) (now : Time) (c : Conn) (n : Nat) (q : Packet) (h : HsFresh c n ks on)
     (hq : q.type = TYPE_SYN ∨ q.type = TYPE_CONNECT) :
-    HsFresh (c.transmit env now q).c n ∧ (c.transmit env now q).c.state = c.state ∧ (c.transmit env now q).c.counters = c.counters := by
+    HsFresh (c.transmit env now q).c n ks on ∧ (c.transmit env now q).c.state = c.state ∧ (c.transmit env now q).c.counters = c.counters := by
   unfold Conn.transmit
   have hl : (!c.linkUp) = false := by rw [h.link]; rfl
   rw [hl]
@@ -54,9 +57,9 @@ theorem transmit_hs (env : Env) (now : Time) (c : Conn) (n : Nat) (q : Packet) (
 
 /-- sending a SYN or a CONNECT: the receiver role and the ciphers stay as they are, the state stays, and the counter of the
     packet's substream advances iff the packet is reliable (the CONNECT) -/
-theorem sendPacket_hs (env : Env) (now : Time) (c : Conn) (n : Nat) (p : Packet) (h : HsFresh c n)
+theorem sendPacket_hs (env : Env) (now : Time) (c : Conn) (n : Nat) (p : Packet) (h : HsFresh c n ks on)
     (hp : p.type = TYPE_SYN ∨ p.type = TYPE_CONNECT) (hna : (hasAck p.flags || hasMultiAck p.flags) = false) :
-    HsFresh (c.sendPacket env now p).c n ∧ (c.sendPacket env now p).c.state = c.state ∧
+    HsFresh (c.sendPacket env now p).c n ks on ∧ (c.sendPacket env now p).c.state = c.state ∧
     ((c.sendPacket env now p).c.counters = c.counters ∨
       (hasReliable p.flags = true ∧ ∃ k, c.counters[p.substreamId]? = some k ∧
         (c.sendPacket env now p).c.counters = setAt c.counters p.substreamId (seqNext k))) ∧
@@ -71,8 +74,8 @@ theorem sendPacket_hs (env : Env) (now : Time) (c : Conn) (n : Nat) (p : Packet)
     cases hk : c.counters[p.substreamId]? with
     | none => exact ⟨h, rfl, Or.inl rfl, fun k _ hk' => by cases hk'⟩
     | some k =>
-      have h1 : HsFresh ({ c with counters := setAt c.counters p.substreamId (seqNext k) } : Conn) n :=
-        ⟨h.win, h.q, h.fb, h.eof, h.link, h.keys, h.only⟩
+      have h1 : HsFresh ({ c with counters := setAt c.counters p.substreamId (seqNext k) } : Conn) n ks on :=
+        ⟨h.win, h.q, h.fb, h.eof, h.link, h.keys, h.con, h.only⟩
       by_cases hsyn : p.type = TYPE_SYN
       · simp only [hsyn, ne_eq, not_true_eq_false, if_false, Conn.encodeIf, show TYPE_SYN ≠ TYPE_DATA by decide, false_and]
         refine (fun t => ⟨t.1, t.2.1, Or.inr ⟨trivial, k, rfl, t.2.2⟩, fun k' _ hk' => by cases hk'; exact t.2.2⟩) (transmit_hs env now _ n _ h1 (Or.inl ?_))
@@ -93,15 +96,16 @@ theorem sendPacket_hs (env : Env) (now : Time) (c : Conn) (n : Nat) (p : Packet)
       refine (fun t => ⟨t.1, t.2.1, Or.inl t.2.2, fun k hr' _ => False.elim hr'⟩) (transmit_hs env now c n _ h (Or.inr ?_))
       rfl
 
-theorem hsFresh_of_fields {c c' : Conn} {n : Nat} (h : HsFresh c n) (hw : c'.windows = c.windows) (hq : c'.queues = c.queues)
+theorem hsFresh_of_fields {c c' : Conn} {n : Nat} (h : HsFresh c n ks on) (hw : c'.windows = c.windows) (hq : c'.queues = c.queues)
     (hf : c'.fragBufs = c.fragBufs) (he : c'.eof = c.eof) (hl : c'.linkUp = c.linkUp) (hr : c'.relCiphers = c.relCiphers)
-    (hs : ∀ p ∈ resendsOf c', p ∈ resendsOf c) : HsFresh c' n :=
-  ⟨hw.trans h.win, hq.trans h.q, hf.trans h.fb, he.trans h.eof, hl.trans h.link, by rw [hr]; exact h.keys, fun p hp => h.only p (hs p hp)⟩
+    (hc : c'.cipherOn = c.cipherOn)
+    (hs : ∀ p ∈ resendsOf c', p ∈ resendsOf c) : HsFresh c' n ks on :=
+  ⟨hw.trans h.win, hq.trans h.q, hf.trans h.fb, he.trans h.eof, hl.trans h.link, by rw [hr]; exact h.keys, hc.trans h.con, fun p hp => h.only p (hs p hp)⟩
 
 /-- removing the timer of an acknowledged packet -/
-theorem ackRemoval_hs (c : Conn) (n : Nat) (key : AckKey) (hd : Nat) (h : HsFresh c n) :
-    HsFresh ({ c with ackEvents := ackErase key c.ackEvents, sched := c.sched.map (·.remove hd) } : Conn) n := by
-  refine hsFresh_of_fields h rfl rfl rfl rfl rfl rfl ?_
+theorem ackRemoval_hs (c : Conn) (n : Nat) (key : AckKey) (hd : Nat) (h : HsFresh c n ks on) :
+    HsFresh ({ c with ackEvents := ackErase key c.ackEvents, sched := c.sched.map (·.remove hd) } : Conn) n ks on := by
+  refine hsFresh_of_fields h rfl rfl rfl rfl rfl rfl rfl ?_
   intro p hp
   cases hs : c.sched with
   | none => simp [resendsOf, hs] at hp
@@ -112,9 +116,9 @@ theorem ackRemoval_hs (c : Conn) (n : Nat) (key : AckKey) (hd : Nat) (h : HsFres
 
 /-- **the client handles a SYN/ACK**: the receiver role and the ciphers stay as they are; either nothing of the send counters and
     the state changes, or the client is now CONNECTED and the counter of substream 0 has advanced by one (the CONNECT went out) -/
-theorem handle_syn_hs (env : Env) (now : Time) (c : Conn) (n : Nat) (p : Packet) (h : HsFresh c n) (hp : p.type = TYPE_SYN)
+theorem handle_syn_hs (env : Env) (now : Time) (c : Conn) (n : Nat) (p : Packet) (h : HsFresh c n ks on) (hp : p.type = TYPE_SYN)
     (hst : c.state = STATE_CONNECTING) :
-    HsFresh (c.handle env now p).c n ∧
+    HsFresh (c.handle env now p).c n ks on ∧
     (((c.handle env now p).c.state = STATE_CONNECTING ∧ (c.handle env now p).c.counters = c.counters) ∨
      ((c.handle env now p).c.state = STATE_CONNECTED ∧
         ∀ k, c.counters[0]? = some k → (c.handle env now p).c.counters = setAt c.counters 0 (seqNext k))) := by
@@ -123,7 +127,7 @@ theorem handle_syn_hs (env : Env) (now : Time) (c : Conn) (n : Nat) (p : Packet)
   rw [if_neg hnd, if_neg (by intro hh; exact hh.2 hp)]
   simp only [hp, if_true]
   -- the effect of process_syn
-  have hps : HsFresh (c.processSyn env now p).c n ∧
+  have hps : HsFresh (c.processSyn env now p).c n ks on ∧
       (((c.processSyn env now p).c.state = STATE_CONNECTING ∧ (c.processSyn env now p).c.counters = c.counters) ∨
        ((c.processSyn env now p).c.state = STATE_CONNECTED ∧
           ∀ k, c.counters[0]? = some k → (c.processSyn env now p).c.counters = setAt c.counters 0 (seqNext k))) := by
@@ -144,8 +148,8 @@ theorem handle_syn_hs (env : Env) (now : Time) (c : Conn) (n : Nat) (p : Packet)
                   maxSub := p.maxSubstreamId
                   minorVer := p.minorVersion
                   supFuncs := p.supportedFunctions
-                  remoteSignature := p.connectionSignature } : Conn) n :=
-                hsFresh_of_fields h rfl rfl rfl rfl rfl rfl (fun _ hq => hq)
+                  remoteSignature := p.connectionSignature } : Conn) n ks on :=
+                hsFresh_of_fields h rfl rfl rfl rfl rfl rfl rfl (fun _ hq => hq)
               have := sendPacket_hs env now _ n ({ mkPacket TYPE_CONNECT (FLAG_RELIABLE + FLAG_NEED_ACK + FLAG_HAS_SIZE) with
                   connectionSignature := some (env.connSig c.codec c.remoteAddr)
                   initialUnreliableId := c.initialUnrelId
@@ -177,8 +181,8 @@ theorem handle_syn_hs (env : Env) (now : Time) (c : Conn) (n : Nat) (p : Packet)
     · exact hps
 
 /-- **the client handles a CONNECT/ACK** (or any CONNECT packet): receiver role, ciphers, state and send counters stay -/
-theorem handle_connect_hs (env : Env) (now : Time) (c : Conn) (n : Nat) (p : Packet) (h : HsFresh c n) (hp : p.type = TYPE_CONNECT) :
-    HsFresh (c.handle env now p).c n ∧ (c.handle env now p).c.state = c.state ∧ (c.handle env now p).c.counters = c.counters := by
+theorem handle_connect_hs (env : Env) (now : Time) (c : Conn) (n : Nat) (p : Packet) (h : HsFresh c n ks on) (hp : p.type = TYPE_CONNECT) :
+    HsFresh (c.handle env now p).c n ks on ∧ (c.handle env now p).c.state = c.state ∧ (c.handle env now p).c.counters = c.counters := by
   unfold Conn.handle
   split
   · exact ⟨h, rfl, rfl⟩
@@ -186,7 +190,7 @@ theorem handle_connect_hs (env : Env) (now : Time) (c : Conn) (n : Nat) (p : Pac
     · exact ⟨h, rfl, rfl⟩
     · have hns : p.type ≠ TYPE_SYN := by rw [hp]; decide
       simp only [hp, show (TYPE_CONNECT = TYPE_SYN) = False by decide, if_false, if_true]
-      have hpc : HsFresh (c.processConnect env p).c n ∧ (c.processConnect env p).c.state = c.state ∧
+      have hpc : HsFresh (c.processConnect env p).c n ks on ∧ (c.processConnect env p).c.state = c.state ∧
           (c.processConnect env p).c.counters = c.counters := by
         unfold Conn.processConnect
         split
@@ -200,7 +204,7 @@ theorem handle_connect_hs (env : Env) (now : Time) (c : Conn) (n : Nat) (p : Pac
               · split
                 · split
                   · exact ⟨h, rfl, rfl⟩
-                  · exact ⟨hsFresh_of_fields h rfl rfl rfl rfl rfl rfl (fun _ hq => hq), rfl, rfl⟩
+                  · exact ⟨hsFresh_of_fields h rfl rfl rfl rfl rfl rfl rfl (fun _ hq => hq), rfl, rfl⟩
                 · exact ⟨h, rfl, rfl⟩
       unfold R.bind
       cases he : (c.processConnect env p).err with
@@ -215,39 +219,48 @@ theorem handle_connect_hs (env : Env) (now : Time) (c : Conn) (n : Nat) (p : Pac
           · exact hpc
         · exact hpc
 
-theorem resume_hs (now : Time) (c : Conn) (n : Nat) (h : HsFresh c n) :
-    HsFresh (c.resumeHandshake now).c n ∧ (c.resumeHandshake now).c.state = c.state ∧ (c.resumeHandshake now).c.counters = c.counters := by
+theorem resume_hs (now : Time) (c : Conn) (n : Nat) (h : HsFresh c n ks on) :
+    HsFresh (c.resumeHandshake now).c n ks on ∧ (c.resumeHandshake now).c.state = c.state ∧ (c.resumeHandshake now).c.counters = c.counters := by
   unfold Conn.resumeHandshake
   split
   · split
     · split
       · rename_i s hs
-        refine ⟨hsFresh_of_fields h rfl rfl rfl rfl rfl rfl ?_, rfl, rfl⟩
+        refine ⟨hsFresh_of_fields h rfl rfl rfl rfl rfl rfl rfl ?_, rfl, rfl⟩
         intro q hq
         have hq' : q ∈ (s.events ++ [({ handle := s.nextHandle, deadline := now + c.pingTimeout, rep := some c.pingTimeout, act := Action.ping } : Timer)]).filterMap (fun (t : Timer) => actPacket t.act) := hq
         simp only [List.filterMap_append, List.filterMap_cons, List.filterMap_nil, actPacket, List.append_nil] at hq'
         simp only [resendsOf, hs]
         exact hq'
-      · exact ⟨hsFresh_of_fields h rfl rfl rfl rfl rfl rfl (fun _ hq => hq), rfl, rfl⟩
-    · exact ⟨hsFresh_of_fields h rfl rfl rfl rfl rfl rfl (fun _ hq => hq), rfl, rfl⟩
+      · exact ⟨hsFresh_of_fields h rfl rfl rfl rfl rfl rfl rfl (fun _ hq => hq), rfl, rfl⟩
+    · exact ⟨hsFresh_of_fields h rfl rfl rfl rfl rfl rfl rfl (fun _ hq => hq), rfl, rfl⟩
   · exact ⟨h, rfl, rfl⟩
+
+/-- the substream keys of a client after `Conn.new` and the login of `handshake()` -/
+def clientKeys (env : Env) (creds : Option Creds) : List Bytes :=
+  match creds with
+  | none => List.replicate (env.s.maxSubstreamId + 1) [0x43, 0x44, 0x26, 0x4D, 0x4C]
+  | some cr => keyChain (env.s.maxSubstreamId + 1) cr.sessionKey
 
 /-- **`handshake()` on a new client object**: the SYN goes out; receiver role and ciphers as `Conn.new` (+ `login`) left them,
     CONNECTING, every send counter at 1 -/
 theorem handshake_start_hs (env : Env) (version : Option Nat) (u chk sid : Nat) (la : Addr) (lp lt : Nat) (ra : Addr) (rp rt : Nat)
     (t0 : Time) (creds : Option Creds) :
     let c1 := ((Conn.new env version u chk sid la lp lt ra rp rt).handshake env t0 creds).c
-    HsFresh c1 (env.s.maxSubstreamId + 1) ∧ c1.state = STATE_CONNECTING ∧ c1.counters = List.replicate (env.s.maxSubstreamId + 1) 1 := by
+    HsFresh c1 (env.s.maxSubstreamId + 1) (clientKeys env creds) (env.s.transport == TRANSPORT_UDP) ∧ c1.state = STATE_CONNECTING ∧
+      c1.counters = List.replicate (env.s.maxSubstreamId + 1) 1 := by
   intro c1
-  have base : ∀ (c' : Conn), c'.windows = List.replicate (env.s.maxSubstreamId + 1) { next := 1, packets := [] } →
+  have base : ∀ (c' : Conn) (ks : List Bytes), c'.windows = List.replicate (env.s.maxSubstreamId + 1) { next := 1, packets := [] } →
       c'.queues = List.replicate (env.s.maxSubstreamId + 1) [] → c'.fragBufs = List.replicate (env.s.maxSubstreamId + 1) [] →
       c'.eof = false → c'.linkUp = true →
-      (∃ ks : List Bytes, ks.length = env.s.maxSubstreamId + 1 ∧ c'.relCiphers = ks.map (fun k => { key := k })) →
+      (ks.length = env.s.maxSubstreamId + 1 ∧ c'.relCiphers = ks.map (fun k => { key := k })) →
+      c'.cipherOn = (env.s.transport == TRANSPORT_UDP) →
       c'.sched = some {} → c'.state = STATE_CONNECTING → c'.counters = List.replicate (env.s.maxSubstreamId + 1) 1 →
-      HsFresh (c'.sendSyn env t0).c (env.s.maxSubstreamId + 1) ∧ (c'.sendSyn env t0).c.state = STATE_CONNECTING ∧
+      HsFresh (c'.sendSyn env t0).c (env.s.maxSubstreamId + 1) ks (env.s.transport == TRANSPORT_UDP) ∧ (c'.sendSyn env t0).c.state = STATE_CONNECTING ∧
       (c'.sendSyn env t0).c.counters = List.replicate (env.s.maxSubstreamId + 1) 1 := by
-    intro c' hw hq hf he hl hk hs hst hc
-    have h0 : HsFresh c' (env.s.maxSubstreamId + 1) := ⟨hw, hq, hf, he, hl, hk, fun p hp => by simp [resendsOf, hs] at hp⟩
+    intro c' ks hw hq hf he hl hk hon hs hst hc
+    have h0 : HsFresh c' (env.s.maxSubstreamId + 1) ks (env.s.transport == TRANSPORT_UDP) :=
+      ⟨hw, hq, hf, he, hl, hk, hon, fun p hp => by simp [resendsOf, hs] at hp⟩
     unfold Conn.sendSyn
     have := sendPacket_hs env t0 c' _ ({ mkPacket TYPE_SYN FLAG_NEED_ACK with
         connectionSignature := some (List.replicate (signatureSize c'.codec) 0)
@@ -261,9 +274,9 @@ theorem handshake_start_hs (env : Env) (version : Option Nat) (u chk sid : Nat) 
     · exact absurd h1 (by show ¬ hasReliable FLAG_NEED_ACK = true; decide)
   cases creds with
   | none =>
-    exact base _ rfl rfl rfl rfl rfl ⟨List.replicate (env.s.maxSubstreamId + 1) [0x43, 0x44, 0x26, 0x4D, 0x4C], by simp, by simp [Conn.new]⟩ rfl rfl rfl
+    exact base _ _ rfl rfl rfl rfl rfl ⟨by simp [clientKeys], by simp [clientKeys, Conn.new]⟩ rfl rfl rfl rfl
   | some cr =>
-    exact base _ rfl rfl rfl rfl rfl ⟨keyChain (env.s.maxSubstreamId + 1) cr.sessionKey, keyChain_length _ _, by simp [Conn.login, Conn.new]⟩ rfl rfl rfl
+    exact base _ _ rfl rfl rfl rfl rfl ⟨keyChain_length _ _, by simp [clientKeys, Conn.login, Conn.new]⟩ rfl rfl rfl rfl
 
 /-- **the client's half of `Established`, for every configuration**: a new client object, `handshake()`, a SYN packet handled, a
     CONNECT packet handled, the parked `handshake()` resumed — if the client is CONNECTED after that, it is `ClientReady` on every
@@ -276,7 +289,9 @@ theorem client_half_established (env : Env) (version : Option Nat) (u chk sid : 
     let c2 := (c1.handle env t1 synAck).c
     let c3 := (c2.handle env t2 conAck).c
     let c4 := (c3.resumeHandshake t3).c
-    c4.state = STATE_CONNECTED → ClientReady c4 sub := by
+    c4.state = STATE_CONNECTED →
+      ClientReady c4 sub ∧ c4.relCiphers = (clientKeys env creds).map (fun k => { key := k }) ∧
+      c4.cipherOn = (env.s.transport == TRANSPORT_UDP) := by
   intro c1 c2 c3 c4 hconn
   have hn : sub < env.s.maxSubstreamId + 1 := by omega
   obtain ⟨f1, s1, k1⟩ := handshake_start_hs env version u chk sid la lp lt ra rp rt t0 creds
@@ -290,9 +305,9 @@ theorem client_half_established (env : Env) (version : Option Nat) (u chk sid : 
     · have := h2 1 (by rw [k1]; exact replicate_get _ _ _ (by omega))
       rw [this, k1]; rfl
   have hk4 : c4.counters = setAt (List.replicate (env.s.maxSubstreamId + 1) 1) 0 2 := by rw [k4, k3, hk2]
-  obtain ⟨ks, hkl, hrk⟩ := f4.keys
-  have hsl : sub < ks.length := by omega
-  refine ⟨?_, ?_, ?_, ?_, ⟨f4.eof, f4.link⟩, ?_, ?_, ?_⟩
+  obtain ⟨hkl, hrk⟩ := f4.keys
+  have hsl : sub < (clientKeys env creds).length := by omega
+  refine ⟨⟨?_, ?_, ?_, ?_, ⟨f4.eof, f4.link⟩, ?_, ?_, ?_⟩, hrk, f4.con⟩
   · rw [hk4]
     by_cases h0 : sub = 0
     · subst h0
